@@ -200,7 +200,14 @@ def gen_trace(rng, numeric=True, profile="wiring", values=None, p_bad=0.06):
             rng.shuffle(to)
             if bad:
                 to[0] = rng.choice([nuser, to[-1]])
-            rec.call("swap", t, (tuple(fr), tuple(to)), lambda: c.mode_swaps(dict(zip(fr, to))))
+            darg = dict(zip(fr, to))       # cleared after the call: the circuit must not hold on to the caller's dictionary
+
+            def _swap():
+                try:
+                    c.mode_swaps(darg)
+                finally:
+                    darg.clear()
+            rec.call("swap", t, (tuple(fr), tuple(to)), _swap)
         elif kind == "u":
             if not numeric:
                 continue
